@@ -42,6 +42,9 @@ def cases(tier, seed):
             yield f"ll/{src}/{nb}/serial", {"kind": "ll", "src": src, "nb": nb, "pool": "serial", "seed": sd}
     for nb in (2, 3, 24):
         yield f"ll/file/{nb}/multi", {"kind": "ll", "src": "file", "nb": nb, "pool": "multi", "seed": sd}
+    for k in range(4):
+        yield f"idx/{k}", {"kind": "idx", "k": k, "seed": sd}
+    yield "history/rewritten-cache-file", {"kind": "rewrite", "seed": sd}
     for hist in ("rejection-first", "posterior-first", "other-data-first"):
         yield f"history/{hist}", {"kind": "history", "hist": hist, "seed": sd}
     for nb in (1, 4, 25):
@@ -71,6 +74,37 @@ def check(inp):
         if got.shape != ref.shape or not np.array_equal(got, ref):
             bad(f"same-values-in-input-order[{inp['src']},{inp['pool']}]", n_batches=inp["nb"], maxdiff=float(np.max(np.abs(got - ref))) if got.shape == ref.shape else None,
                 shapes=[got.shape, ref.shape])
+    elif inp["kind"] == "idx":
+        # explicit (shuffled, non-monotone) index arrays through the helper, several batchings
+        import schwimmbad
+        from thejoker.multiproc_helpers import marginal_ln_likelihood_helper
+        from thejoker.src.fast_likelihood import CJokerHelper
+        joker = TheJoker(prior, rng=np.random.default_rng(1))
+        helper = joker._make_joker_helper(data)
+        rng = np.random.default_rng(inp["seed"] + inp["k"])
+        sel = rng.permutation(len(ref))[: 5 + 4 * inp["k"]]
+        for nb in (1, 3, 40):
+            got = marginal_ln_likelihood_helper(helper, path, pool=schwimmbad.SerialPool(), n_batches=nb, samples_idx=sel)
+            if not np.array_equal(got, ref[sel]):
+                bad("index-array-values-in-the-given-order", n_batches=nb, sel=sel)
+                break
+    elif inp["kind"] == "rewrite":
+        # the same path rewritten with the same physical samples in other column units: results must not depend on what was read before
+        import astropy.units as u
+        p2 = os.path.join(S.OUTDIR, f"c05_rw_{os.getpid()}.hdf5")
+        joker = TheJoker(prior, rng=np.random.default_rng(1))
+        for unit in ("day", "yr", "day"):
+            l2 = lib.copy()
+            l2.tbl["P"] = l2.tbl["P"].to(u.Unit(unit))
+            if os.path.exists(p2):
+                os.unlink(p2)
+            l2.write(p2)
+            got = joker.marginal_ln_likelihood(data, p2, n_batches=2)
+            if not np.allclose(got, ref, rtol=1e-10, atol=1e-8):
+                bad("independent-of-call-history[rewritten-cache-file]", unit=unit, maxdiff=float(np.max(np.abs(got - ref))))
+                break
+        if os.path.exists(p2):
+            os.unlink(p2)
     elif inp["kind"] == "history":
         joker = TheJoker(prior, rng=np.random.default_rng(2))
         if inp["hist"] == "rejection-first":
